@@ -119,7 +119,12 @@ def validate_translator(run, seed):
     pool = set()
     for nm in names:
         p = pat(nm)
-        l = R.lang(p)
+        try:
+            l = R.lang(p)
+        except BaseException as e:
+            if type(e).__name__ != 'OutOfSubset':
+                raise
+            continue                # outside the translated subset: its obligations are already undecided
         for k in range(3):
             v, w = R.witness_in(l, 5000, (lambda x, k=k: z3.Length(x) >= k + 1))
             if v == 'sat':
@@ -159,7 +164,12 @@ def validate_translator(run, seed):
 def _validate_one(args):
     nm, pool = args
     p = pat(nm)
-    l = R.lang(p)
+    try:
+        l = R.lang(p)
+    except BaseException as e:
+        if type(e).__name__ != 'OutOfSubset':
+            raise
+        return 0, []
     errs = []
     n = 0
     for s in pool:
